@@ -159,6 +159,7 @@ def materialise(root: Path, spec, git_top: Path = None) -> None:
     Git repository is created there instead, so that the project root lies
     below the top of the work tree (monorepo layout)."""
     files = {}
+    hard = []
     for p, v in spec["nodes"].items():
         if v[0] in ("text", "binary"):
             files[p] = v[1]
@@ -166,6 +167,8 @@ def materialise(root: Path, spec, git_top: Path = None) -> None:
             files[p] = b""
         elif v[0] == "socket":
             files[p] = ("socket",)
+        elif v[0] == "hardlink":
+            hard.append((p, v[1]))
         else:
             files[p] = ("symlink", v[1])
     g = spec.get("git")
@@ -175,6 +178,15 @@ def materialise(root: Path, spec, git_top: Path = None) -> None:
             if p not in files:
                 files[p] = ("\n".join(pats) + "\n").encode()
     T.write_tree(root, files)
+    subs = (g or {}).get("submodules", []) if g else []
+    for p, target in hard:
+        (root / p).parent.mkdir(parents=True, exist_ok=True)
+        if any(x == sm or x.startswith(sm + "/") for sm in subs for x in (p, target)) or not (root / target).is_file() or os.path.lexists(root / p):
+            # (a submodule becomes a repository of its own: no link across that border)
+            if not os.path.lexists(root / p):
+                (root / p).write_bytes(spec["nodes"][target][1] if spec["nodes"].get(target, ("",))[0] == "text" else b"x\n")
+        else:
+            os.link(root / target, root / p)
     if g and git_top is not None:
         prefix = os.path.relpath(root, git_top) + "/"
         T.write_tree(git_top, {".gitignore": "*.bin\nbuild/\n/" + prefix + "UPPER.TXT\n", "top-level.py": "x\n"})
